@@ -89,6 +89,12 @@ def run_config(config, out_dir, target, repo=None, log=None):
     if not os.path.exists(DRIVER):
         raise ExtractError('driver not built: %s (run MANIFEST.setup_cmd)' % DRIVER)
     os.makedirs(out_dir, exist_ok=True)
+    # the marker goes first: a run interrupted (or a sandbox snapshot taken) while the facts are being rewritten must not
+    # leave a directory that looks complete
+    try:
+        os.remove(os.path.join(out_dir, 'COMPLETE'))
+    except FileNotFoundError:
+        pass
     for f in glob.glob(os.path.join(out_dir, '*.json')):
         os.remove(f)
     # cargo's freshness cache would skip the wrapper for unchanged members
@@ -136,10 +142,33 @@ def run_config(config, out_dir, target, repo=None, log=None):
     missing = [c for c in expected if c not in found]
     if missing:
         raise ExtractError('fact files missing for %s in config %s (driver skipped?)' % (missing, config))
-    with open(os.path.join(out_dir, 'COMPLETE'), 'w') as fh:
+    tmp = os.path.join(out_dir, 'COMPLETE.tmp')
+    with open(tmp, 'w') as fh:
         json.dump({'config': config, 'nonce': nonce, 'crates': {k: [os.path.basename(x) for x in v] for k, v in found.items()},
                    'cmd': ' '.join(cmd), 'wall_s': round(time.time() - t0, 2)}, fh)
+    os.replace(tmp, os.path.join(out_dir, 'COMPLETE'))
     return found
+
+
+def cache_is_sound(d, config):
+    """the marker of a cached extraction is believed only if every fact file it lists is there, carries the marker's nonce and
+    every crate the configuration expects is listed (a cache copied while it was being rewritten is extracted again)"""
+    try:
+        with open(os.path.join(d, 'COMPLETE')) as fh:
+            m = json.load(fh)
+        if m.get('config') != config:
+            return False
+        for c in CONFIGS[config][3]:
+            if not m.get('crates', {}).get(c):
+                return False
+        for files in m['crates'].values():
+            for f in files:
+                with open(os.path.join(d, f)) as fh:
+                    if ('"nonce":"%s"' % m['nonce']) not in fh.read(400):
+                        return False
+        return True
+    except (OSError, ValueError, KeyError):
+        return False
 
 
 def facts_for(config='full', fresh=False, log=None, repo=None, loader=None):
@@ -155,7 +184,7 @@ def facts_for(config='full', fresh=False, log=None, repo=None, loader=None):
         d = os.path.join(CACHE, 'facts', th, config)
         marker = os.path.join(d, 'COMPLETE')
         info = {'tree_hash': th, 'config': config, 'fresh_extraction': False}
-        if os.path.exists(marker) and not fresh:
+        if os.path.exists(marker) and not fresh and cache_is_sound(d, config):
             with open(marker) as fh:
                 info.update(json.load(fh))
             info['fresh_extraction'] = False
